@@ -85,6 +85,15 @@ func c17Start(root string, which int) {
 		os.Mkdir(filepath.Join(root, "e"), 0o755)
 		os.WriteFile(filepath.Join(root, "ro"), []byte("readonly"), 0o400)
 	}
+	if which == 3 {
+		// served by an ordinary user who owns nothing here: the root and e may be written
+		// by everybody, d (and so d/c, d/dd) may not, nor may the files
+		os.Mkdir(filepath.Join(root, "e"), 0o777)
+		os.Chmod(filepath.Join(root, "e"), 0o777)
+		os.Chmod(root, 0o777)
+		os.WriteFile(filepath.Join(root, "w"), []byte("anybody"), 0o666)
+		os.Chmod(filepath.Join(root, "w"), 0o666)
+	}
 	// fixed times so that only explicit changes differ
 	filepath.Walk(root, func(p string, fi os.FileInfo, err error) error {
 		if err == nil && fi.Mode()&os.ModeSymlink == 0 {
@@ -409,6 +418,13 @@ func c17Run(start int, dotu bool, hist []mop) (viol *Viol, state string) {
 	os.MkdirAll(rootB, 0o755)
 	c17Start(rootA, start)
 	c17Start(rootB, start)
+	if start == 3 {
+		openUp(base, rootA)
+		openUp(base, rootB)
+		os.Chmod(rootA, 0o777)
+		os.Chmod(rootB, 0o777)
+		defer asOrdinaryUser()()
+	}
 	timed := map[string]bool{}
 	body := func() {
 		h := newUfsH(rootA, 8216, dotu)
@@ -556,6 +572,17 @@ func c17Scenarios(tier string) []Scenario {
 		depth = 3
 		starts = []int{0, 1, 2}
 	}
+	// start tree 3: the server runs as an ordinary user and the host refuses most of it
+	for _, dotu := range []bool{false, true} {
+		n := len(c17Alphabet(dotu))
+		d, step := 1, 25
+		if tier == "thorough" {
+			d, step = 2, 4
+		}
+		for lo := 0; lo < n; lo += step {
+			out = append(out, c17Search(3, dotu, lo, lo+step, d))
+		}
+	}
 	for _, st := range starts {
 		for _, dotu := range []bool{false, true} {
 			n := len(c17Alphabet(dotu))
@@ -575,6 +602,6 @@ func init() {
 	register(&Property{ID: "C17", Level: "model_checking",
 		Technique: "explicit-state breadth-first search over mutation sequences with a POSIX twin as reference model; every transition executed on the real Ufs (fresh trees, replay of the sequence) and the trees compared",
 		Rule:      "alphabet of ~85 (.u ~100) mutations over the namespace {a, b, d/, d/c, d/dd/, l->a, ld->d/dd}: Tcreate of files (4 perm/mode pairs incl. OTRUNC) on free and occupied names in two directories and in 'ld/..' (through a symbolic link to a directory and back up), directories, symlinks with existing and dangling targets, hard links, Twrite at offsets 0/mid/end/beyond, Topen with OTRUNC, Tremove of file / empty and non-empty directory / symlink / missing, Twstat rename to free/occupied/same names, lengths 0/shorter/equal/longer, modes 0/0400/0777, mtime, and four multi-field wstats; BFS to depth 2 (thorough 3, three start trees) with states deduplicated on a canonical snapshot (names, kinds, permission bits, contents, link targets, hard-link groups, explicitly set mtimes); the same operation is applied with package os to a twin tree. states = distinct tree snapshots, transitions = sequences executed",
-		Assumptions: []string{"the host file system and package os are the reference", "creating an existing name may be refused or treated like O_CREAT without O_EXCL (either is accepted if the tree matches)", "runs as the sandbox user (root): permission denials are not exercised"},
+		Assumptions: []string{"the host file system and package os are the reference", "creating an existing name may be refused or treated like O_CREAT without O_EXCL (either is accepted if the tree matches)", "start tree 3 is served (and its twin changed) with the effective ids of an ordinary user, so that the host refuses things; the other trees run as the sandbox user"},
 		Scenarios:   c17Scenarios, QuickS: 110, ThoroughS: 1500})
 }
